@@ -74,7 +74,7 @@ class Led:
     def blink(self, duration_ms: int, times: int = 1) -> None:
         """Blink the LED ``times`` times with ``duration_ms`` delays."""
 
-        if duration_ms < 0:
+        if not 0 <= duration_ms < float("inf"):
             raise ValueError("duration_ms must be non-negative")
         if times <= 0:
             raise ValueError("times must be positive")
@@ -90,7 +90,7 @@ class Led:
 
         if step <= 0:
             raise ValueError("step must be positive")
-        if delay_ms < 0:
+        if not 0 <= delay_ms < float("inf"):
             raise ValueError("delay_ms must be non-negative")
 
         current = max(0, min(255, int(self.brightness)))
@@ -105,7 +105,7 @@ class Led:
 
         if step <= 0:
             raise ValueError("step must be positive")
-        if delay_ms < 0:
+        if not 0 <= delay_ms < float("inf"):
             raise ValueError("delay_ms must be non-negative")
 
         current = max(0, min(255, int(self.brightness)))
@@ -118,7 +118,7 @@ class Led:
     def flash_pattern(self, pattern: Sequence[int], delay_ms: int = 200) -> None:
         """Execute a sequence of on/off or brightness states."""
 
-        if delay_ms < 0:
+        if not 0 <= delay_ms < float("inf"):
             raise ValueError("delay_ms must be non-negative")
 
         pattern_list = list(pattern)
